@@ -114,9 +114,7 @@ Definition tok_wire_ok (k : tok) : bool :=
    the segmentation the real parser reported; at a size change it is resized by T.resize.  Its
    grid and cursor satisfy the predicate evaluated on the real emulator.  The hypotheses of
    the theorems are evaluated on the way and must hold in the run: the vocabulary of the
-   serialisation [toks_wfb], the oracle hypothesis [seg_agrees] on every frame, and at every
-   resize [resize_pen_ok] (a theorem for this start state: alternate screen over a default
-   primary screen) *)
+   serialisation [toks_wfb] and the oracle hypothesis [seg_agrees] on every frame *)
 Fixpoint model_holds (tw : list Z -> Z) (seg : segm) (rows cols : Z) (s : vstate) (t : T.term) (fs : list eframe) : bool :=
   match fs with
   | [] => true
@@ -124,7 +122,7 @@ Fixpoint model_holds (tw : list Z -> Z) (seg : segm) (rows cols : Z) (s : vstate
       let s1 := fold_left apply_op (ef_ops f) s in
       match ef_end f with
       | FResize rows2 cols2 =>
-          (1 <=? rows2) && (1 <=? cols2) && resize_pen_ok t &&
+          (1 <=? rows2) && (1 <=? cols2) &&
           match T.resize t cols2 rows2 with
           | T.TOk t2 => model_holds tw seg rows2 cols2 (do_resize s1 rows2 cols2) t2 rest
           | _ => false
@@ -166,10 +164,3 @@ Definition c12_model_holds (c : ecase) : bool :=
    model on the bytes *)
 Definition c12_violations_all (cases : list ecase) : list Z :=
   bad_indices (fun c => negb (c12_holds c && c12_side_holds c && c12_model_holds c)) cases.
-
-(* the guard of the finding resize-pen-leak: the history starts on a primary screen that is
-   not in the default style (the hypothesis [alt_plainb] of the history theorem fails) and
-   contains a size change *)
-Definition c12_known (cases : list ecase) : list Z :=
-  bad_indices (fun c => negb (alt_plainb (emu_start_pre (lookup_seg (e_segs c)) (e_cols c) (e_rows c) (e_pre c))) &&
-                        existsb (fun f => match ef_end f with FResize _ _ => true | _ => false end) (e_frames c)) cases.
